@@ -14,15 +14,27 @@
        modelled in `MdModel.Process` with CHECKED operations exactly as the code is now, for ALL
        inputs (hypotheses only where the code relies on an invariant established elsewhere; each
        is named and has a non-vacuity `example`);
+   (2b) the whole crashing-instruction analysis (op_analysis.rs) over an ABSTRACT decoded
+       instruction (`MdModel.OpAnalysis`): no panic inside the decoder's `Shape`, `Shape` is exact,
+       every reported access is the documented function of the operands, the register set;
+   (2c) the whole x86 argument recovery (arg_recovery.rs) at byte level (`MdModel.ArgRecovery`):
+       no panic on valid-UTF-8 names and u32 stack pointers; termination by construction;
+   (2d) the remaining small sites (STACK WIN evaluator = C07's theorem, time stamp, stat counters);
    (3) `render_total`: the printers' own arithmetic is total on every state satisfying the reader
        and frame invariants, and the frame invariants are discharged for every stack the walk
        model returns (`render_walk_frames_total`, on top of C05/C08).
-  What they cannot carry (SAMPLED by engine `process`, see propcfg/C03.json): panics inside code
-  that is not modelled (yaxpeax-x86, procfs-core, serde_json, encoding_rs, time, debugid, the
-  `format!`/`write!` machinery), real time and memory budgets, and the glue between the kernels.
+  What they cannot carry (SAMPLED / MEASURED by engine `process`, see propcfg/C03.json): that the
+  yaxpeax-x86 decoder only produces instructions inside `Shape` (systematic sweep), panics inside
+  code that is not modelled (yaxpeax-x86, procfs-core, serde_json, encoding_rs, time, debugid, the
+  `format!`/`write!` machinery), real time (wall-clock budget) and memory (counting allocator
+  against an explicit budget affine in dump length + symbol bytes + frames — by (1) affine in
+  the input size), and the glue between the kernels.
 -/
 import MdProofs.C05
+import MdProofs.C07
 import MdProofs.Lemmas.Process
+import MdProofs.Lemmas.OpAnalysis
+import MdProofs.Lemmas.ArgRecovery
 namespace MdModel.Process
 open MdModel MdModel.Walk
 
@@ -251,6 +263,333 @@ theorem arg_read_head_no_panic (start limit : Nat) :
     · exact ⟨h, rfl, by omega⟩
 
 example : argReadHead 4294967292 4294967295 3 = .ok 4294967296 := by rfl
+
+/-! ## (2b) "without panicking": the crashing-instruction analysis (op_analysis.rs, amd64)
+
+`MdModel.OpAnalysis` is the whole decision logic of `amd64::analyze_instruction` over an abstract
+decoded instruction (opcode name, `mem_size`, the `Operand` variants of yaxpeax-x86), with the
+nine `panic!("… unexpected memory operand")` arms, `assert_eq!(operand_count(), 1)` and yaxpeax's
+`assert!(i < 4)` as panic outcomes. -/
+
+section OpAnalysisTheorems
+open MdModel.OpAnalysis
+
+/-- **no panic arm is reachable from an instruction of the decoder's shape**, whatever the register
+    file, the memory list and the stack memory are: at most four operands, exactly one for
+    CALL/CALLF/JMP/JMPF/JMPE, and memory operands of an access-derivable opcode only where the
+    `match idx` arms expect them (`Shape`). -/
+theorem op_analysis_no_panic (i : Instr) (env : OpAnalysis.Env) (h : Shape i = true) : NoPanic (analyze i env) := by
+  rcases isPanic_or_noPanic (analyze i env) with hp | hn
+  · exfalso
+    rcases (analyze_isPanic_iff i env).mp hp with h1 | h2 | h3
+    · exact not_isPanic_of_noPanic (memAccesses_ok i env.rf h) h1
+    · exact not_isPanic_of_noPanic (ipUpdate_ok i env h) h2
+    · exact not_isPanic_of_noPanic (getRegisters_ok i.operands 0 [] (by have := (shape_unpack i h).1; omega)) h3
+  · exact hn
+
+/-- **`Shape` is exact**: with every register valid, an abstract instruction reaches a `panic!` /
+    `assert_eq!` / `assert!` if and only if it is outside `Shape`. So the abstract instructions that
+    panic are precisely: more than four operands; a CALL/CALLF/JMP/JMPF/JMPE without exactly one
+    operand; a memory-accessing ADD/SUB/CMP/UCOMISS/MOV/MOVAPS/MOVUPS/LEA with a memory operand at
+    position ≥ 2, CALL/JMP/JMPF/PUSH/DEC/INC/POP with one at position ≥ 1, RETURN/RETF/Jcc with
+    any memory operand. (No byte sequence yaxpeax-x86 2.0 decodes was found to produce one — sampled.) -/
+theorem op_analysis_panic_iff (i : Instr) (readMem : Nat → Option Nat) (readStack : Option (Nat → Option Nat)) :
+    IsPanic (analyze i ⟨allValid, readMem, readStack⟩) ↔ Shape i = false := by
+  constructor
+  · intro hp
+    cases hs : Shape i with
+    | false => rfl
+    | true => exact absurd hp (not_isPanic_of_noPanic (op_analysis_no_panic i _ hs))
+  · intro hs
+    rw [analyze_isPanic_iff]
+    by_cases h1 : i.operands.length ≤ 4
+    · by_cases h2 : ipClass i.opc = .callLike ∧ i.operands.length ≠ 1
+      · exact Or.inr (Or.inl (ipUpdate_panic i _ h2.1 h2.2))
+      · left
+        simp only [Shape, h1, decide_true, Bool.true_and] at hs
+        have h2' : (ipClass i.opc != .callLike || decide (i.operands.length = 1)) = true := by
+          by_cases hc : ipClass i.opc = .callLike
+          · have : i.operands.length = 1 := by
+              by_cases hl : i.operands.length = 1
+              · exact hl
+              · exact absurd ⟨hc, hl⟩ h2
+            simp [this]
+          · simp [hc]
+        rw [h2', Bool.true_and] at hs
+        cases hms : i.memSize with
+        | none => rw [hms] at hs; simp at hs
+        | some ms =>
+          cases had : derivable i.opc with
+          | none => rw [hms, had] at hs; simp at hs
+          | some ad =>
+            rw [hms, had] at hs
+            exact memAccesses_panic i ms ad hms had hs
+    · exact Or.inr (Or.inr (getRegisters_panic i.operands 0 [] (by omega) (by omega)))
+
+/-- opcodes that are neither access-derivable nor CALL/JMP-like never reach a panic arm (≤ 4 operands) -/
+theorem op_analysis_other_opcodes (i : Instr) (env : OpAnalysis.Env) (h4 : i.operands.length ≤ 4)
+    (hd : derivable i.opc = none) (hc : ipClass i.opc ≠ .callLike) : NoPanic (analyze i env) := by
+  apply op_analysis_no_panic
+  simp only [Shape, h4, decide_true, Bool.true_and, hd, Bool.and_eq_true, Bool.or_eq_true, bne_iff_ne, ne_eq]
+  refine ⟨Or.inl hc, ?_⟩
+  cases i.memSize <;> rfl
+
+/-- **"every reported memory access address is the documented function of the operands".**
+    Every access `memory_access_list` reports is
+    * an explicit one: it belongs to a memory operand `operands[k]` whose `MemoryOperandInfo` is
+      `(base, index, scale, disp)`, its address is
+      `(B + I * scale + disp) mod 2^64` — `B`, `I` the values of the base / index registers (0 when
+      absent), `scale` defaulting to 1, `disp` the sign-extended displacement (`i32`, or the
+      `u32`/`u64` absolute address reinterpreted as `i32`/`i64`) —, flagged as a null-pointer
+      dereference exactly when there is a base register holding 0, with the instruction's `mem_size`; or
+    * the implicit stack slot of an access-derivable CALL/PUSH/POP/RETF/RETURN. -/
+theorem op_access_documented (i : Instr) (rf : Reg → Option Nat) (l : List MemAccess)
+    (h : memAccesses i rf = .ok (.ok l)) :
+    ∀ m ∈ l,
+      (∃ (k : Nat) (op : Operand) (inf : OpInfo) (B I : Nat), i.operands[k]? = some op ∧ op.isMemory = true ∧ opInfo op = some inf ∧
+          regVal rf inf.base = some B ∧ regVal rf inf.index = some I ∧
+          (m.info.address : Int) =
+            ((B : Int) + (I : Int) * ((inf.scale.getD 1 : Nat) : Int) + inf.disp.getD 0) % 18446744073709551616 ∧
+          m.info.null = (inf.base.isSome && B == 0) ∧ i.memSize = some m.size) ∨
+      (∃ ad ms, derivable i.opc = some ad ∧ i.memSize = some ms ∧ m ∈ implicitAccesses ad rf ms) := by
+  intro m hm
+  unfold memAccesses at h
+  cases hms : i.memSize with
+  | none =>
+    rw [hms] at h
+    simp only [Outcome.ok.injEq, Res.ok.injEq] at h
+    subst h
+    cases hm
+  | some ms =>
+    rw [hms] at h
+    simp only at h
+    cases had : derivable i.opc with
+    | none =>
+      rw [had] at h
+      simp only at h
+      obtain ⟨k, op, l', hk, hf, hml⟩ := operandLoop_mem _ i.operands 0 l h m hm
+      obtain ⟨hmem, _, hsz, inf, hinf, haddr⟩ := explicitUnderivable_mem rf ms op l' hf m hml
+      obtain ⟨B, I, hB, hI, hform, hnull⟩ := addrOfInfo_spec rf inf m.info haddr
+      exact Or.inl ⟨k, op, inf, B, I, hk, hmem, hinf, hB, hI, hform, hnull, by rw [hsz]⟩
+    | some ad =>
+      rw [had] at h
+      simp only at h
+      cases hl : operandLoop (explicitDerivable ad rf ms) 0 i.operands with
+      | panic s => rw [hl] at h; cases h
+      | ok r =>
+        rw [hl] at h
+        cases r with
+        | regInvalid => cases h
+        | ok l1 =>
+          simp only [Outcome.ok.injEq, Res.ok.injEq] at h
+          subst h
+          rcases List.mem_append.mp hm with h1 | h2
+          · obtain ⟨k, op, l', hk, hf, hml⟩ := operandLoop_mem _ i.operands 0 l1 hl m h1
+            obtain ⟨hmem, _, hsz, inf, hinf, haddr⟩ := explicitDerivable_mem ad rf ms (0 + k) op l' hf m hml
+            obtain ⟨B, I, hB, hI, hform, hnull⟩ := addrOfInfo_spec rf inf m.info haddr
+            exact Or.inl ⟨k, op, inf, B, I, hk, hmem, hinf, hB, hI, hform, hnull, by rw [hsz]⟩
+          · exact Or.inr ⟨ad, ms, rfl, rfl, h2⟩
+
+/-- the implicit stack slot: CALL/PUSH write `rsp.wrapping_sub(8)` (the kernel `implicitAccess` of
+    `implicit_access_total`), POP/RETF/RETURN read `rsp`; nothing when `rsp` is invalid or for
+    another opcode -/
+theorem op_implicit_access (ad : AD) (rf : Reg → Option Nat) (ms : Option Nat) :
+    implicitAccesses ad rf ms =
+      match rf "rsp" with
+      | none => []
+      | some rsp =>
+        if ad = .CALL ∨ ad = .PUSH then
+          [{ info := { address := implicitAccess .push rsp, null := implicitAccess .push rsp == 0 }, size := ms, ty := .write }]
+        else if ad = .POP ∨ ad = .RETF ∨ ad = .RETURN then
+          [{ info := { address := implicitAccess .pop rsp, null := rsp == 0 }, size := ms, ty := .read }]
+        else [] := by
+  cases ad <;> cases h : rf "rsp" <;> simp [implicitAccesses, implicitAccess, h]
+
+/-- **an explicit access fails (the whole list is `None`) exactly on an invalid base or index
+    register** — there is no other error path in the address derivation -/
+theorem op_address_total (rf : Reg → Option Nat) (inf : OpInfo) :
+    (∃ a, addrOfInfo rf inf = .ok a) ∨ (regVal rf inf.base = none ∨ regVal rf inf.index = none) := by
+  cases h : addrOfInfo rf inf with
+  | ok a => exact Or.inl ⟨a, rfl⟩
+  | regInvalid => exact Or.inr ((addrOfInfo_invalid rf inf).mp h)
+
+/-- **the register set** (`get_registers`): exactly the base and index registers of the operands
+    that have a `MemoryOperandInfo` (the masked AVX-512 memory operands have none) -/
+theorem op_registers_spec (i : Instr) (env : OpAnalysis.Env) (a : Analysis) (h : analyze i env = .ok a) :
+    ∀ r, r ∈ a.registers ↔ ∃ op ∈ i.operands, ∃ inf, opInfo op = some inf ∧ (inf.base = some r ∨ inf.index = some r) := by
+  intro r
+  unfold analyze at h
+  cases h1 : memAccesses i env.rf with
+  | panic s => rw [h1] at h; cases h
+  | ok acc =>
+    rw [h1] at h
+    simp only at h
+    cases h2 : ipUpdate i env with
+    | panic s => rw [h2] at h; cases h
+    | ok ip =>
+      rw [h2] at h
+      simp only at h
+      cases h3 : getRegisters 0 i.operands [] with
+      | panic s => rw [h3] at h; cases h
+      | ok regs =>
+        rw [h3] at h
+        simp only [Outcome.ok.injEq] at h
+        subst h
+        simp only
+        rw [mem_getRegisters i.operands 0 [] regs h3 r]
+        simp
+
+/-- the classification of an opcode name by the lists read off op_analysis.rs (generated tables) -/
+def ipClassOfName (n : String) : IpClass :=
+  if Tables.calllike_names.contains n then .callLike
+  else if Tables.retlike_names.contains n then .retLike
+  else if Tables.jcc_names.contains n then .jcc
+  else .other
+
+/-- **the model's opcode classification is the source's**: for every opcode the model knows,
+    `AccessDerivableOpcode::from_opcode`, `is_privileged`, `is_division` and the three opcode lists
+    of `InstructionPointerUpdate::from_instruction` — as regenerated from op_analysis.rs on every
+    run (`MdModel.Gen.OpAnalysisTables`) — say what `derivable`, `isPrivileged`, `isDivision`,
+    `ipClass` say; and every name in those lists is an opcode the model knows. -/
+theorem op_tables_agree :
+    (∀ o : Opc, (derivable o).isSome = Tables.derivable_names.contains o.name ∧
+      isPrivileged o = Tables.privileged_names.contains o.name ∧
+      isDivision o = Tables.division_names.contains o.name ∧
+      ipClass o = ipClassOfName o.name ∧ (o ≠ .other → opcOfName o.name = o)) ∧
+    (∀ n ∈ Tables.derivable_names ++ Tables.privileged_names ++ Tables.division_names ++
+        Tables.calllike_names ++ Tables.retlike_names ++ Tables.jcc_names, opcOfName n ≠ .other) := by
+  refine ⟨?_, by decide⟩
+  intro o
+  cases o <;> decide
+
+/-- `mov rax, [rbx + rcx*8 + 16]`: one read of 8 bytes at `rbx + 8*rcx + 16`, registers `{rbx, rcx}` -/
+example : analyze ⟨.MOV, some (some 8), [.reg "rax", .baseIndexScaleDisp "rbx" "rcx" 8 16]⟩
+    ⟨fun r => if r = "rbx" then some 4096 else if r = "rcx" then some 2 else none, fun _ => none, none⟩ =
+    .ok { props := ⟨true, false, true, true⟩,
+          accesses := some [⟨⟨4128, false⟩, some 8, .read⟩], ipUpdate := some .noUpdate, registers := ["rbx", "rcx"] } := by
+  decide
+/-- the arithmetic wraps: `[rbx + rcx*8 - 16]` with `rbx = 8`, `rcx = 2^61` -/
+example : addrOfInfo (fun r => if r = "rbx" then some 8 else some (2 ^ 61)) ⟨some "rbx", some "rcx", some 8, some (-16)⟩ =
+    .ok ⟨2 ^ 64 - 8, false⟩ := by decide
+/-- `AbsoluteU32 { addr: 0xfffffff0 }` is sign-extended (`addr as i32 as i64`) -/
+example : addrOf (fun _ => none) (.absU32 0xfffffff0) = .ok (some ⟨2 ^ 64 - 16, false⟩) := by decide
+/-- a 32-bit base register (address-size override) names no amd64 context register: no access list -/
+example : memAccesses ⟨.MOV, some (some 4), [.reg "eax", .deref "ebx"]⟩ (fun r => if r = "rbx" then some 1 else none) =
+    .ok .regInvalid := by decide
+/-- abstract instructions outside `Shape` reach the panic arms: a `ret` with a memory operand, a
+    `call` with two operands, an `add` with a memory operand in third place, five operands -/
+example : analyze ⟨.RETURN, some (some 8), [.deref "rax"]⟩ ⟨allValid, fun _ => none, none⟩ =
+    .panic "ret/iret instruction had unexpected memory operand" := by decide
+example : analyze ⟨.CALL, none, [.reg "rax", .imm]⟩ ⟨allValid, fun _ => none, none⟩ =
+    .panic "call/jmp instruction had incorrect operand count" := by decide
+example : Shape ⟨.ADD, some (some 4), [.reg "eax", .imm, .deref "rax"]⟩ = false ∧
+    Shape ⟨.other, none, [.imm, .imm, .imm, .imm, .imm]⟩ = false ∧
+    Shape ⟨.ADD, some (some 4), [.deref "rax", .imm]⟩ = true ∧ Shape ⟨.JMPF, some (some 10), [.deref "rax"]⟩ = true := by decide
+/-- an invalid register at position 0 ends the loop before a later panic arm (the order of evaluation is modelled) -/
+example : memAccesses ⟨.ADD, some (some 4), [.deref "eax", .imm, .deref "rax"]⟩ (fun r => if r = "rax" then some 1 else none) =
+    .ok .regInvalid := by decide
+
+end OpAnalysisTheorems
+
+/-! ## (2c) "without panicking": x86 argument recovery (arg_recovery.rs, `recover_function_args`)
+
+`MdModel.ArgRecovery` is the whole of `fill_arguments` / `parse_x86_arg_list` at byte level. Every
+loop of the model is structural recursion over the bytes of the function name, the argument list
+or the frame list: termination is by construction. -/
+
+section ArgRecoveryTheorems
+open MdModel.ArgRecovery
+
+/-- **the function-signature parser never panics** on a function name that is a Rust `String`
+    (valid UTF-8) shorter than 2 GiB: the `&str` slices `arg_list[arg_start..idx]` are taken at an
+    ASCII comma and right behind it (character boundaries — a continuation byte never follows an
+    ASCII byte, `valid_nca`), `arg_start ≤ idx` always, and the two `i32` nesting depths count
+    bytes of the name. It yields at most as many arguments as the name has bytes. -/
+theorem arg_list_parse_no_panic (name : Bytes) (hv : validUtf8 name = true) (hl : name.length ≤ I32MAX) :
+    ∃ r, parseArgList name = .ok r ∧ ∀ cc l, r = some (cc, l) → l.length ≤ name.length :=
+  parseArgList_ok name hv hl
+
+/-- **`fill_arguments` never panics** on the frames of an x86 thread: every frame's stack pointer
+    is a `u32` (`CONTEXT_X86.esp`; the unwinders build caller contexts of the callee's type), every
+    function name is valid UTF-8 below 2 GiB (a symbol-file line, C09). The read head starts at a
+    caller's `esp` — or at the saturated end of the stack memory, where it can never move —, is
+    advanced by 4 only while below the limit and at most once per argument (+ `this`):
+    `read_head += POINTER_WIDTH` stays below `2^32 + 4·(2^31 + 1)`. Whatever the stack memory
+    holds (any base, any bytes, also ending at 2^64-1) and whatever `eax` is. -/
+theorem arg_recovery_no_panic (frames : List ArgRecovery.Frame) (mem : Option StackMem)
+    (hsp : ∀ g ∈ frames, g.sp ≤ U32MAX)
+    (hname : ∀ f ∈ frames, ∀ n, f.name = some n → validUtf8 n = true ∧ n.length ≤ I32MAX) :
+    NoPanic (fillArguments frames mem) :=
+  fillFrom_ok frames mem hsp frames 0 hname
+
+/-- the bytes of an ASCII literal -/
+def asc (s : String) : Bytes := s.toList.map fun c => UInt8.ofNat c.toNat
+
+/-- nested templates and parentheses hide commas; the pieces are trimmed -/
+example : parseArgList (asc "ns::f(int a, std::map<int, char> , void (*)(int, int))") =
+    .ok (some (.windowsThisCall, [asc "int a", asc "std::map<int, char>", asc "void (*)(int, int)"])) := by
+  decide
+/-- unbalanced nesting: the parser is lost / the result is rejected -/
+example : ∀ n ∈ [asc "f(a>b)", asc "g(a<b)", asc "h(", asc "k(a))(b"],
+    (match parseArgList n with | .ok none => true | _ => false) = true := by decide
+/-- everything between the FIRST `(` and the LAST `)`; multi-byte white space is trimmed:
+    `m(<U+00A0>é ,<U+3000>ü<U+2003>) const` -/
+example : parseArgList ([0x6D, 0x28, 0xC2, 0xA0, 0xC3, 0xA9, 0x20, 0x2C, 0xE3, 0x80, 0x80, 0xC3, 0xBC, 0xE2, 0x80, 0x83, 0x29] ++ asc " const") =
+    .ok (some (.cdecl, [[0xC3, 0xA9], [0xC3, 0xBC]])) := by decide
+/-- the UTF-8 hypothesis is needed by the model: a continuation byte right behind a comma makes
+    `arg_list[arg_start..]` start inside a character (Rust's slice would panic); a `String` never holds that -/
+example : parseArgList [102, 40, 97, 44, 0x80, 41] = .panic "arg_list[arg_start..]" ∧ validUtf8 [102, 40, 97, 44, 0x80, 41] = false := by
+  decide
+/-- two cdecl arguments read from the caller's frame; the third lies beyond the caller's frame pointer -/
+example : fillArguments
+    [⟨100, some (asc "f(a, b, c)"), true, some 7⟩, ⟨104, none, true, none⟩, ⟨112, none, true, none⟩]
+    (some ⟨100, [0,0,0,0, 1,0,0,0, 2,1,0,0, 3,0,0,0]⟩) =
+    .ok [some ⟨.cdecl, [(asc "a", some 1), (asc "b", some 258), (asc "c", none)]⟩, none, none] := by
+  decide
+/-- the `u32` hypothesis is needed by the model (a 64-bit stack pointer next to 2^64 overflows the
+    read head) and cannot arise for `MinidumpRawContext::X86` frames -/
+example : fillArguments [⟨0, some (asc "f(a)"), true, none⟩, ⟨2 ^ 64 - 2, none, true, none⟩, ⟨2 ^ 64 - 1, none, true, none⟩] (some ⟨0, []⟩) =
+    .panic "read_head += POINTER_WIDTH" := by decide
+/-- without a caller frame both limits are the (saturated) end of the stack: nothing is read, nothing moves -/
+example : fillArguments [⟨5, some (asc "A::f(a, b)"), true, some 9⟩] (some ⟨2 ^ 64 - 4, [1, 2, 3, 4, 5, 6, 7, 8]⟩) =
+    .ok [some ⟨.windowsThisCall, [(thisName, some 9), (asc "a", none), (asc "b", none)]⟩] := by decide
+
+end ArgRecoveryTheorems
+
+/-! ## (2d) the remaining sites of the site review (notes/C03.md) -/
+
+/-- **the STACK WIN program evaluator never panics** (walker.rs:800-890: `wrapping_*`, `/` and `%`
+    behind the `rhs == 0` tests, `rhs - 1` of the alignment operator behind `rhs == 0 ||`): for every
+    program text, size fields, register file, grand callee and memory. (= C07 `evalWin_ok` about
+    `MdModel.Win.evalWin`, tied by C07's engine `win`; restated here as the C03 obligation.) -/
+theorem c03_win_program_no_panic (expr : List Char) (info : MdModel.Win.Info) (w : MdModel.Win.Walker) :
+    ∃ p, MdModel.Win.evalWin expr info w = .ok p :=
+  MdModel.Win.evalWin_ok expr info w
+
+/-- processor.rs:1125 `SystemTime::UNIX_EPOCH + Duration::from_secs(dump.header.time_date_stamp as u64)`:
+    `SystemTime + Duration` panics only when the sum leaves the platform's range (i64 seconds on
+    every supported target); a `u32` of seconds after 1970 never does. -/
+theorem dump_time_no_panic (stamp : Nat) (h : stamp ≤ U32MAX) : NoPanic (dumpTime stamp) := by
+  unfold dumpTime
+  have : (0 : Nat) + stamp ≤ 9223372036854775807 := by
+    have : U32MAX = 4294967295 := rfl
+    omega
+  simp only [this, if_true]
+  exact ⟨_, rfl⟩
+
+/-- processor.rs:245/255 `num_threads_processed += 1`, `num_frames_processed += 1` (u64, under the
+    stats mutex): after `n` increments from 0 the counter is `n`; it cannot overflow while `n ≤ 2^64-1`,
+    and `n` is the number of threads (a u32 count) resp. of frames (`c03_walk_bound`: at most
+    stack bytes + 2 per thread). No other statement runs while the mutex is held, so it is never poisoned. -/
+theorem stat_counter_no_panic (n : Nat) (h : n ≤ U64MAX) : statCounter n = .ok n := by
+  induction n with
+  | zero => rfl
+  | succ k ih =>
+    simp only [statCounter, ih (by omega)]
+    exact cadd64_ok _ k 1 (by omega)
+
+example : dumpTime 4294967295 = .ok 4294967295 := by decide
+example : statCounter 3 = .ok 3 := by decide
 
 /-! ## (3) "the resulting state can always be written as full text, brief text and JSON" -/
 
